@@ -33,7 +33,13 @@ type blockState struct {
 	guard string
 }
 
+type autoInv struct {
+	phi *ssa.Phi
+	lo  string
+}
+
 type loopInfo struct {
+	autoPhis []autoInv
 	head    *ssa.BasicBlock
 	ordinal int
 	body    map[*ssa.BasicBlock]bool
@@ -57,6 +63,7 @@ type Exec struct {
 	callOrd map[string]int
 	callIdxOf map[ssa.Instruction]int // ordinal of call per callee name in source order
 	preLoops map[*ssa.BasicBlock]*loopInfo
+	tiDone map[string]bool
 	frameActive bool
 	frameLocs []modLoc
 	nopanic bool
@@ -320,6 +327,33 @@ func (vc *VC) loadGlobal(h *Heap, g *ssa.Global) string {
 			n = "|gv." + g.Pkg.Pkg.Name() + "." + g.Name() + "|"
 		}
 		vc.decl(n, fmt.Sprintf("(declare-const %s %s)", n, vc.sortOf(et)))
+		if ci := vc.ctx.constInit[g]; ci != nil && !vc.declSet["ci "+n] {
+			vc.declSet["ci "+n] = true
+			ex0 := &Exec{vc: vc}
+			if st, isSt := et.Underlying().(*types.Struct); isSt {
+				srt := strings.Trim(vc.structSort(et, st), "|")
+				zeroFields := map[int]bool{}
+				for fi := 0; fi < st.NumFields(); fi++ {
+					zeroFields[fi] = true
+				}
+				for fi, cv := range ci {
+					if fi < 0 {
+						continue
+					}
+					delete(zeroFields, fi)
+					if cv == nil {
+						continue
+					}
+					vc.globalInitFacts = append(vc.globalInitFacts, fmt.Sprintf("(assert (= (|%s.%s| %s) %s))", srt, st.Field(fi).Name(), n, ex0.constTerm(cv)))
+				}
+				// fields never stored by init keep their zero value
+				for fi := range zeroFields {
+					vc.globalInitFacts = append(vc.globalInitFacts, fmt.Sprintf("(assert (= (|%s.%s| %s) %s))", srt, st.Field(fi).Name(), n, vc.zero(st.Field(fi).Type())))
+				}
+			} else if cv := ci[-1]; cv != nil && len(ci) == 1 {
+				vc.globalInitFacts = append(vc.globalInitFacts, fmt.Sprintf("(assert (= %s %s))", n, ex0.constTerm(cv)))
+			}
+		}
 		if vc.ctx.uniqueAllocGlobals[g] {
 			if vc.ctx.errGlobals[g] {
 				vc.ctx.usedUniqueErr[n] = true
@@ -336,6 +370,9 @@ func (vc *VC) loadGlobal(h *Heap, g *ssa.Global) string {
 }
 
 func (vc *VC) globalFacts() []string {
+	out0 := append([]string{}, vc.globalInitFacts...)
+	sort.Strings(out0)
+	defer func() {}()
 	var ns []string
 	for n := range vc.ctx.usedUnique {
 		if vc.declSet[n] {
@@ -343,7 +380,7 @@ func (vc *VC) globalFacts() []string {
 		}
 	}
 	sort.Strings(ns)
-	var out []string
+	out := out0
 	for _, n := range ns {
 		out = append(out, fmt.Sprintf("(assert (and (> %s 1000) (< %s alloc0)))", n, n))
 	}
@@ -575,6 +612,9 @@ func (ex *Exec) freshVal(v ssa.Value, why string) {
 			t := vc.fresh(v.Name()+"."+why, vc.sortOf(tup.At(i).Type()))
 			vc.wf(ex.cur.guard, t, tup.At(i).Type(), ex.cur.heap.alloc)
 			r.Tup = append(r.Tup, &Val{T: t})
+			if ex.cur != nil {
+				defer ex.assumeTypeInv(t, tup.At(i).Type())
+			}
 		}
 		ex.vals[v] = r
 		return
@@ -582,6 +622,9 @@ func (ex *Exec) freshVal(v ssa.Value, why string) {
 	t := vc.fresh(v.Name()+"."+why, vc.sortOf(v.Type()))
 	vc.wf(ex.cur.guard, t, v.Type(), ex.cur.heap.alloc)
 	ex.vals[v] = &Val{T: t}
+	if why != "loop" {
+		ex.assumeTypeInv(t, v.Type())
+	}
 }
 
 func (ex *Exec) instr(in ssa.Instruction) {
@@ -674,7 +717,7 @@ func (ex *Exec) instr(in ssa.Instruction) {
 		if mt, ok := i.X.Type().Underlying().(*types.Map); ok {
 			k := ex.val(i.Index).T
 			dom, val, _ := vc.mapArrs(mt)
-			okT := fmt.Sprintf("(select (select %s %s) %s)", h.get(dom), x.T, k)
+			okT := fmt.Sprintf("(and (not (= %s 0)) (select (select %s %s) %s))", x.T, h.get(dom), x.T, k)
 			vT := fmt.Sprintf("(ite %s (select (select %s %s) %s) %s)", okT, h.get(val), x.T, k, vc.zero(mt.Elem()))
 			vn := vc.define(i.Name()+".v", vc.sortOf(mt.Elem()), vT)
 			vc.wf(g, vn, mt.Elem(), h.alloc)
@@ -887,6 +930,7 @@ func (ex *Exec) unop(i *ssa.UnOp) {
 		t := ex.load(i.X)
 		ex.setVal(i, t)
 		vc.wf(ex.cur.guard, ex.vals[i].T, i.Type(), ex.cur.heap.alloc)
+		ex.assumeTypeInv(ex.vals[i].T, i.Type())
 	case token.SUB:
 		x := ex.val(i.X).T
 		if isFloat(i.Type()) {
@@ -1237,8 +1281,13 @@ func (ex *Exec) run() {
 		}
 		vc.assume(t)
 	}
-	if ex.pass == 2 {
-		// vacuity canary: the preconditions must be satisfiable
+	ex.cur = &blockState{heap: h0, guard: "true"}
+	for name, tv := range ex.params {
+		_ = name
+		ex.assumeTypeInv(tv.T, tv.Ty)
+	}
+	if ex.pass == 2 && (len(vc.fc.clauses("requires")) > 0 || len(vc.usedTypeInvs) > 0) {
+		// vacuity canary: the preconditions / assumed invariants must be satisfiable
 		o := ex.oblig("canary", "requires", "", token.NoPos, "false", []string{ex.prop})
 		o.Canary = true
 	}
@@ -1523,6 +1572,96 @@ func (ex *Exec) loopHead(b *ssa.BasicBlock, l *loopInfo, pidx []int, gs []string
 		}
 		ex.freshVal(phi, "loop")
 	}
+	// range-over-slice/int loops: go/ssa lowers them to  rangeindex = phi(-1, next);
+	// next = rangeindex+1; if next < L.  By construction -1 <= rangeindex and
+	// (rangeindex == -1 or rangeindex < L) hold at the loop head in every iteration.
+	for _, in := range b.Instrs {
+		phi, ok := in.(*ssa.Phi)
+		if !ok {
+			break
+		}
+		if phi.Comment != "rangeindex" || len(phi.Edges) != 2 {
+			continue
+		}
+		for _, in2 := range b.Instrs {
+			add, ok := in2.(*ssa.BinOp)
+			if !ok || add.Op != token.ADD || add.X != phi {
+				continue
+			}
+			if c1, isC := add.Y.(*ssa.Const); !isC || c1.Value == nil || c1.Value.String() != "1" {
+				continue
+			}
+			isBack := false
+			for _, e := range phi.Edges {
+				if e == add {
+					isBack = true
+				}
+			}
+			if !isBack {
+				continue
+			}
+			for _, in3 := range b.Instrs {
+				lt, ok := in3.(*ssa.BinOp)
+				if !ok || lt.Op != token.LSS || lt.X != add {
+					continue
+				}
+				if li, isI := lt.Y.(ssa.Instruction); isI && l.body[li.Block()] {
+					continue
+				}
+				if iff, ok := b.Instrs[len(b.Instrs)-1].(*ssa.If); !ok || iff.Cond != lt {
+					continue
+				}
+				pv, lv := ex.vals[phi].T, ex.val(lt.Y).T
+				vc.assume(fmt.Sprintf("(=> %s (and (bvsle (_ bv18446744073709551615 64) %s) (or (= %s (_ bv18446744073709551615 64)) (bvslt %s %s))))", st.guard, pv, pv, pv, lv))
+			}
+		}
+	}
+	// counting loops:  i = phi(c, i + k) with constants c, k > 0: candidate
+	// invariant  i >= c  (assumed here, checked at the back edges as inv.auto).
+	l.autoPhis = nil
+	for _, in := range b.Instrs {
+		phi, ok := in.(*ssa.Phi)
+		if !ok {
+			break
+		}
+		_, signed, isInt := intInfo(phi.Type())
+		if !isInt || !signed || len(phi.Edges) != len(b.Preds) {
+			continue
+		}
+		okPat := true
+		lo := ""
+		for pi, e := range phi.Edges {
+			if b.Dominates(b.Preds[pi]) { // back edge
+				add, isAdd := e.(*ssa.BinOp)
+				if !isAdd || add.Op != token.ADD || add.X != phi {
+					okPat = false
+					break
+				}
+				k, isC := add.Y.(*ssa.Const)
+				if !isC || k.Value == nil || constant.Sign(k.Value) <= 0 {
+					okPat = false
+					break
+				}
+			} else {
+				c0, isC := e.(*ssa.Const)
+				if !isC || c0.Value == nil {
+					okPat = false
+					break
+				}
+				t := ex.constTerm(c0)
+				if lo != "" && lo != t {
+					okPat = false
+					break
+				}
+				lo = t
+			}
+		}
+		if !okPat || lo == "" {
+			continue
+		}
+		l.autoPhis = append(l.autoPhis, autoInv{phi, lo})
+		vc.assume(fmt.Sprintf("(=> %s (bvsle %s %s))", st.guard, lo, ex.vals[phi].T))
+	}
 	envH := ex.invEnv(b, st.heap, func(p *ssa.Phi) *Val { return ex.vals[p] })
 	for _, c := range invs {
 		if c.Loop != l.ordinal {
@@ -1559,6 +1698,10 @@ func (ex *Exec) backEdge(p, head *ssa.BasicBlock, l *loopInfo, k int) {
 		if q == p {
 			pi = i
 		}
+	}
+	for _, ai := range l.autoPhis {
+		v := ex.val(ai.phi.Edges[pi])
+		ex.oblig("inv.auto", fmt.Sprintf("loop%d.%s>=init", l.ordinal, ai.phi.Comment), "", token.NoPos, fmt.Sprintf("(=> %s (bvsle %s %s))", eg, ai.lo, v.T), []string{ex.prop})
 	}
 	if ex.frameActive && !l.havocAll {
 		names := make([]string, 0, len(l.writes))
@@ -1847,4 +1990,47 @@ func (vc *VC) fpArith(op, x, y, sort string) string {
 		return vc.uf(op+"."+sortKey(sort), []string{sort, sort}, sort, x, y)
 	}
 	return fmt.Sprintf("(%s RNE %s %s)", op, x, y)
+}
+
+// assumeTypeInv assumes the data-structure invariants declared for the pointee
+// type of v (a value of pointer type just read by a non-owner function).
+func (ex *Exec) assumeTypeInv(term string, t types.Type) {
+	pt, ok := t.Underlying().(*types.Pointer)
+	if !ok {
+		return
+	}
+	n, ok := pt.Elem().(*types.Named)
+	if !ok || n.Obj().Pkg() != ex.vc.ctx.tpkg {
+		return
+	}
+	for _, ti := range ex.vc.ctx.cf.TypeInvs {
+		if ti.Type != n.Obj().Name() || ti.Stable {
+			continue
+		}
+		owner := false
+		for _, o := range ti.Owners {
+			if o == ex.vc.fnName() {
+				owner = true
+			}
+		}
+		if owner {
+			continue
+		}
+		key := ti.Type + "|" + term + "|" + fmt.Sprint(ex.cur.heap.id) + "|" + fmt.Sprint(len(ex.cur.heap.vers))
+		if ex.tiDone == nil {
+			ex.tiDone = map[string]bool{}
+		}
+		if ex.tiDone[key] {
+			continue
+		}
+		ex.tiDone[key] = true
+		env := &SpecEnv{vc: ex.vc, vars: map[string]TV{"self": {T: term, Ty: t}}, params: ex.params, heap: ex.cur.heap, old: ex.entry}
+		b, err := env.Bool(ti.Expr)
+		if err != nil {
+			ex.vc.ctx.contractErrors = append(ex.vc.ctx.contractErrors, fmt.Sprintf("typeinv %s (line %d): %v", ti.Type, ti.Line, err))
+			continue
+		}
+		ex.vc.assume(fmt.Sprintf("(=> (and %s (not (= %s 0))) %s)", ex.cur.guard, term, b))
+		ex.vc.usedTypeInvs[ti.Type] = true
+	}
 }
